@@ -65,9 +65,12 @@ def exc_case(src, params, pre, allowed=(), forbidden=(), required=None, name=Non
             "forbidden": list(forbidden), "required": required, "name": name or src, "must_parse": must_parse, "expr": expr}
 
 
-def raw_case(body_src, params, pre, name, helpers=""):
-    """free-form harness: body_src is the function body (must `return` the post-condition)"""
-    return {"kind": "raw", "body": body_src, "params": list(params), "pre": list(pre), "name": name, "helpers": helpers}
+def raw_case(body_src, params, pre, name, helpers="", concrete=()):
+    """free-form harness: body_src is the function body (must `return` the post-condition).
+    concrete: argument tuples outside the symbolic precondition (e.g. the empty source, which CrossHair's model of re
+    mishandles) that are executed concretely with the real re instead"""
+    return {"kind": "raw", "body": body_src, "params": list(params), "pre": list(pre), "name": name, "helpers": helpers,
+            "concrete": [tuple(x) for x in concrete]}
 
 
 def write_module(cases, path):
@@ -177,8 +180,53 @@ def follow_up_exc(c, args):
             "inputs": {"src": c["src"], "args": list(args), "text": ""}}
 
 
+def raw_script(c, args):
+    """replay of a free-form harness: the same body as an ordinary function on the counterexample's arguments, plain re"""
+    an = ", ".join(n for n, _ in c["params"])
+    body = "\n".join("    " + l for l in c["body"].splitlines())
+    return ("import sys\nsys.path.insert(0, %r)\nfrom vlib.symx.hlib import *\nfrom typing import Optional as Opt\n%s\ndef _f(%s):\n%s\n"
+            "try:\n    _r = _f(*%r)\nexcept RecursionError:\n    REPRODUCED('RecursionError')\nexcept Exception as e:\n    REPRODUCED('%%s: %%s' %% (type(e).__name__, e))\n"
+            "if _r is not True: REPRODUCED(%r + ' fails for arguments ' + %r)\nNOT_REPRODUCED()\n") % (
+                common.VERIF, c.get("helpers", ""), an, body, tuple(args), c["name"], repr(tuple(args)))
+
+
+def follow_up_raw(c, args, o):
+    script = raw_script(c, args)
+    rc, out = common.run_script(script)
+    if rc != 1:
+        return {"status": "inconclusive",
+                "detail": "counterexample %r of the symbolic run does not reproduce on the real code with the real re (artifact of the symbolic model); "
+                          "remaining paths not explored" % (tuple(args),)}
+    return {"status": "violated", "detail": "%s fails for arguments %r: %s" % (c["name"], tuple(args), out.strip()[-200:]), "script": script,
+            "inputs": {"args": list(args), "text": ""}}
+
+
+def concrete_points(c):
+    """run the body of a raw harness on its listed concrete argument tuples (plain Python, real re, one process)"""
+    pts = c.get("concrete", [])
+    if not pts:
+        return []
+    an = ", ".join(n for n, _ in c["params"])
+    body = "\n".join("    " + l for l in c["body"].splitlines())
+    script = ("import sys\nsys.path.insert(0, %r)\nfrom vlib.symx.hlib import *\nfrom typing import Optional as Opt\n%s\ndef _f(%s):\n%s\n"
+              "for _a in %r:\n    try:\n        _r = _f(*_a)\n    except RecursionError:\n        REPRODUCED('RecursionError for %%r' %% (_a,))\n"
+              "    except Exception as e:\n        REPRODUCED('%%s: %%s for %%r' %% (type(e).__name__, e, _a))\n"
+              "    if _r is not True: REPRODUCED(%r + ' fails for arguments %%r' %% (_a,))\nNOT_REPRODUCED()\n") % (
+                  common.VERIF, c.get("helpers", ""), an, body, list(pts), c["name"])
+    rc, o = common.run_script(script)
+    nm = c["name"] + " [%d concrete points, real re]" % len(pts)
+    if rc == 1:
+        return [{"name": nm, "status": "violated", "detail": o.strip()[-300:], "script": script, "inputs": {"points": len(pts), "text": ""}}]
+    if rc == 0:
+        return [{"name": nm, "status": "discharged", "detail": "concrete execution of the harness body with the real re"}]
+    return [{"name": nm, "status": "error", "detail": "script error: " + o[-300:]}]
+
+
 def to_results(cases, outs, L=4):
     res = []
+    with ThreadPoolExecutor(max_workers=common.NPROC) as ex:
+        for rs in ex.map(concrete_points, [c for c in cases if c.get("concrete")]):
+            res.extend(rs)
     for c, o in zip(cases, outs):
         r = {"name": c["name"], "solver_s": o["wall_s"],
              "sample": {"harness": c["name"], "verdict": o["verdict"], "paths": o["iterations"], "selfchecked_paths": o.get("selfchecked_paths"),
@@ -201,9 +249,7 @@ def to_results(cases, outs, L=4):
                 elif c["kind"] == "exc":
                     r.update(follow_up_exc(c, args))
                 else:
-                    r.update(status="violated", detail="%s: %s" % (c["name"], o["message"][:300]),
-                             script=c["replay"](args) if c.get("replay") else "NOT_REPRODUCED('no replay')\n",
-                             inputs={"args": list(args), "text": ""})
+                    r.update(follow_up_raw(c, args, o))
                 r["detail"] = (r.get("detail", "") + " [crosshair: %s]" % o["message"][:160])
         elif o["verdict"] in ("unknown", "timeout", "precondition"):
             r.update(status="inconclusive", detail="crosshair: %s after %s paths (%s)" % (o["verdict"], o["iterations"], o["message"][:120]))
